@@ -338,10 +338,7 @@ def ground_truth(plan, stats):
             if any(d not in value for d in f["deps"]):
                 G.add("<deps>")
                 stats["probe:dependency_missing"] += 1
-            elif any(d in G for d in f["deps"]):
-                # the dependency is given but invalid: it is reported itself; whether the dependant also complains is not
-                # fixed by the statement (either is fine)
-                OPTIONAL.add("<deps>")
+            # (a dependency that is given but invalid is reported itself: it is not absent, the dependant has nothing to add)
     # a property is computed from the parsed fields, so it can only fail (and be reported) when every input item is fine
     if not G and plan.get("pprop") and _item_fails(plan["pprop"]["type"], tdsl.build_value(plan["pprop"]["value"])):
         G.add("pr")
@@ -517,6 +514,12 @@ def execute(plan):
                                 f"ExceedError for {item!r}, which is a declared field; reported {co[3]}")
             seen_pairs = set()
             for cls_name, item in co[3]:
+                if item is not None and cls_name in ("ParseError", "AliasConflictError") and \
+                        {("ParseError", item), ("AliasConflictError", item)} & seen_pairs - {(cls_name, item)}:
+                    # two spellings that disagree: the item is reported as a conflict, and not once more for one of its values
+                    res.violate(f"C10|{plan['kind']}|3:item_reported_twice|{path_kind}|{me}",
+                                f"{item!r} is reported as a conflict of its spellings and once more for its value: {co[3]}")
+                    break
                 if (cls_name, item) in seen_pairs and item is not None:
                     # "names exactly the failing items": one entry per failure (a duplicate also uses up max_errors)
                     res.violate(f"C10|{plan['kind']}|3:item_reported_twice|{path_kind}|{me}",
